@@ -88,6 +88,19 @@ def id3_tag_with_unknown(rng, ver):
         f = fr(fid, body)
         unknown.append(f)
         frames.append(f)
+    # known frame ids mutagen cannot interpret: encrypted (method byte in front), also together with compression -
+    # they are kept as raw frames and must be written back unchanged for the tag's own version
+    for fid in rng.sample([b"TPE2", b"APIC", b"COMM", b"TALB"], rng.randrange(0, 3)):
+        payload = bytes(rng.randrange(1, 128) for _ in range(rng.choice([5, 40])))
+        if ver == 4:
+            flags = rng.choice([0x0004, 0x000C | 0x0001])          # encrypted; compressed+encrypted+data length
+            extra = b"\x80" + (syncsafe4(100) if flags & 1 else b"")
+        else:
+            flags = rng.choice([0x0040, 0x00C0])                  # encrypted; compressed+encrypted
+            extra = (struct.pack(">L", 100) if flags & 0x80 else b"") + b"\x80"
+        f = fr(fid, extra + payload, flags)
+        unknown.append(f)
+        frames.append(f)
     frames.append(fr(b"TPE1", b"\x00artist"))
     body = b"".join(frames) + b"\x00" * rng.choice([0, 10, 200])
     return b"ID3" + bytes([ver, 0, 0]) + syncsafe4(len(body)) + body, unknown
@@ -110,10 +123,8 @@ def unknown_kept(ctx):
         if k != "ok":
             ctx.violation("MP3:unknown-frames:load-fails", repr(r)[:120], case); continue
         m = r
-        if len(m.tags.unknown_frames) != len(unknown):
-            # a random id may collide with a known frame: not what is tested here
-            ctx.hist["unknown-id3:collision"] += 1
-            continue
+        # (no frame id starting with X/Y/Z/Q is known to mutagen, so the random ids cannot collide with real frames)
+        ctx.hist["unknown-id3:kept-at-load:%d-of-%d" % (len(m.tags.unknown_frames), len(unknown))] += 0
         fobj.seek(0)
         k, r = timed(lambda: m.save(fobj, v2_version=ver), 20)
         if k != "ok":
@@ -145,6 +156,37 @@ def unknown_kept(ctx):
         ("int:good+three-bytes", b"tmpo", [data_atom(21, b"\x00\x78"), data_atom(21, b"\x01\x02\x03")]),
         ("cover:good+unknown-format", b"covr", [data_atom(13, b"\xff\xd8a"), data_atom(99, b"zzzz")]),
     ]
+    # several uninterpretable children with the same name: each one must survive
+    def raw_atom(name, payload):
+        return struct.pack(">L4s", 8 + len(payload), name) + payload
+    multi = [
+        ("same-name:unknown-non-text", [raw_atom(b"ownr", data_atom(0, b"\x01first")), raw_atom(b"ownr", data_atom(0, b"\x02second"))]),
+        ("same-name:freeform-malformed", [raw_atom(b"----", raw_atom(b"mean", b"\0\0\0\0com.a") + b"\x00\x00\x00\x05junk"),
+                                          raw_atom(b"----", raw_atom(b"mean", b"\0\0\0\0com.b") + b"\x00\x00\x00\x05JUNK")]),
+        ("same-name:text-bad-utf8", [raw_atom(b"\xa9wrt", data_atom(1, b"\xff\xfe1")), raw_atom(b"\xa9wrt", data_atom(1, b"\xff\xfe2"))]),
+    ]
+    for label, atoms in multi:
+        data2 = base
+        for a in atoms:
+            data2 = splice_ilst_child(data2, a) if data2 is not None else None
+        case = {"sub": "mp4-uninterpretable-atoms", "label": label, "atoms": [a.hex() for a in atoms]}
+        if data2 is None:
+            ctx.hist["mp4-uninterpretable:cannot-build"] += 1; continue
+        fobj = F.NamedBytesIO(data2, "a.m4a")
+        k, m2 = timed(lambda: MP4(fobj), 20)
+        ctx.case(key=("mp4-uninterpretable", label), nontrivial=True, modelled=False, sample=None)
+        if k != "ok":
+            ctx.hist["mp4-uninterpretable:load-raises:" + label] += 1; continue
+        fobj.seek(0)
+        k, r = timed(lambda: m2.save(fobj), 20)
+        if k != "ok":
+            ctx.violation("MP4:uninterpretable-atom:save-fails", repr(r)[:120], case); continue
+        out1 = fobj.getvalue()
+        lost = [a.hex()[:60] for a in atoms if a not in out1]
+        if lost:
+            ctx.violation("MP4:uninterpretable-atom-lost:same-name",
+                          "load + unchanged save dropped %d of %d uninterpretable ilst children that share a name" % (len(lost), len(atoms)), case)
+        ctx.hist["mp4-uninterpretable:checked:" + label] += 1
     for label, name, kids in cases:
         body = b"".join(kids)
         child = struct.pack(">L4s", 8 + len(body), name) + body
